@@ -129,6 +129,8 @@ where
     pub(super) fn abort(&self, abort_reason: AbortReason<DB::Error>) {
         // Preserve the first abort cause. Publish it before the release-store so acquire readers
         // that observe `abort` can also observe the reason.
+        #[cfg(grevm_verif)]
+        crate::verif::events::abort_event(&abort_reason);
         self.abort_reason.get_or_init(|| abort_reason);
         self.cancel();
     }
